@@ -29,6 +29,7 @@ func genUniverse() *rapid.Generator[universe] {
 			Templates: rapid.IntRange(1, 2).Draw(t, "templates"),
 			SSA:       rapid.IntRange(0, 2).Draw(t, "ssa") == 0,
 			Revision:  rapid.Bool().Draw(t, "revision"),
+			RevKind:   rapid.SampledFrom([]string{"", "Function"}).Draw(t, "revkind"),
 			Usage:     rapid.IntRange(0, 2).Draw(t, "usage") == 0,
 			Seed:      rapid.Int64Range(1, 1<<40).Draw(t, "nameseed"),
 		}
@@ -147,6 +148,9 @@ func TestVerifC08Histories(t *testing.T) {
 			"addfin-crd": func(t *rapid.T) {
 				step(act{Op: "addfin-crd", Obj: rapid.SampledFrom([]string{"xr", "claim"}).Draw(t, "which")})
 			},
+			"lock-upgrade": func(t *rapid.T) {
+				step(act{Op: "lock-upgrade", Obj: rapid.SampledFrom(lockShapes).Draw(t, "shape")})
+			},
 			"deactivate-rev": func(t *rapid.T) { step(act{Op: "deactivate-rev"}) },
 			"rec-rev2":       func(t *rapid.T) { step(drawFault(t, act{Op: "rec-rev"})) },
 			"lock-churn":     func(t *rapid.T) { step(act{Op: "lock-churn", I: rapid.IntRange(0, 2).Draw(t, "n")}) },
@@ -181,6 +185,11 @@ func TestVerifC08Histories(t *testing.T) {
 		}
 		if w.usageLabelMismatch > 0 {
 			rec.Label("usage-deletion-reconcile-selector-label-mismatch")
+		}
+		for sh, n := range w.revRecShapes {
+			if n > 0 {
+				rec.Label("revision-reconcile lock-entry-shape=" + sh)
+			}
 		}
 		if w.recTermCRD > 0 {
 			rec.Label("xrd-reconcile-with-terminating-but-existing-crd")
@@ -539,7 +548,7 @@ func directedRows() []directed {
 			script: []act{{Op: "deactivate-rev"}, {Op: "del-rev"}, {Op: "rec-rev"}},
 			checks: []milestone{
 				{after: 1, desc: "terminating, Inactive, still listed in the Lock", ok: func(w *world) bool {
-					o := w.sim.Get(revKey)
+					o := w.sim.Get(w.revKey())
 					return o != nil && verifsim.Terminating(o) && verifsim.Nested(o, "spec", "desiredState") == "Inactive" && w.lockHas(revName)
 				}},
 				{after: -1, desc: "revision gone, Lock lost its entry", ok: func(w *world) bool { return w.gone("rev") && !w.lockHas(revName) }},
